@@ -136,7 +136,9 @@ def run_property(pid, tier, seed):
         # loop annotations, keyed by ordinal, no longer fit -> same policy as lost proof hints (needs a witness)
         for f in (r.meta["functions"] if r.meta else []):
             bl = (base.get("loops") or {}).get(f["name"])
-            if f["kind"] == "fn" and bl is not None and f.get("loops", []) != bl:
+            if bl is not None and (not bl or isinstance(bl[0], str)):
+                bl = [bl]  # older baseline format: one sequence per name
+            if f["kind"] == "fn" and bl is not None and f.get("loops", []) not in bl:
                 lost_hint_fns.setdefault(u, set()).add(f["name"])
                 lines.append(f"NOTE unit={u} loop structure of {f['name']} changed ({bl} -> {f.get('loops', [])}): loop annotations may no longer fit")
         for f in (r.meta["functions"] if r.meta else []):
@@ -273,6 +275,17 @@ def run_property(pid, tier, seed):
     return 0, ev
 
 
+def _loops_by_name(functions):
+    """{fn name: [loop-keyword sequence of every extracted function with that name]} (names can repeat across impls)"""
+    out = {}
+    for f in functions:
+        if f["kind"] == "fn":
+            out.setdefault(f["name"], [])
+            if f.get("loops", []) not in out[f["name"]]:
+                out[f["name"]].append(f.get("loops", []))
+    return {k: v for k, v in out.items() if any(v)}
+
+
 def rebaseline(units):
     ext = None
     if needs_rlibs(units):
@@ -291,7 +304,7 @@ def rebaseline(units):
             return 1
         os.makedirs(os.path.join(VERIF, "baseline"), exist_ok=True)
         with open(os.path.join(VERIF, "baseline", u + ".json"), "w") as f:
-            json.dump({"unit": u, "loops": {f["name"]: f.get("loops", []) for f in r.meta["functions"] if f["kind"] == "fn" and f.get("loops")},
+            json.dump({"unit": u, "loops": _loops_by_name(r.meta["functions"]),
                        "obligations": sorted(n for n in r.obligations if "__finding_" not in n),
                        "functions": {f["name"]: f["sha256"] for f in r.meta["functions"]}}, f, indent=1)
         print(f"baseline/{u}.json: {len(r.obligations)} obligations")
